@@ -187,9 +187,13 @@ def scripts(tier, seed, scale=1):
                     lines.append("dq msg")
                 elif ev == "peek":
                     if codec != "command":
-                        lines.append("dq peek %d" % r.choice([0, 1, 4, 100]))
+                        lines.append("dq peek %d" % r.choice([0, 1, 4, 100]) + (" nodst" if r.random() < 0.4 else ""))
+                    else:
+                        lines.append("dq get %d %d %s" % (r.choice([0, 1, 3, 7, 20]), r.choice([0, 1, 2, 5, 9, 70]), r.choice(["vec", "vec", "novec"])))
                 elif ev == "msg":
                     lines.append("dq msg")
+                    if r.random() < 0.5:
+                        lines.append("dq get %d %d %s" % (r.choice([0, 1, 3, 7, 20]), r.choice([0, 1, 2, 5, 9, 70]), r.choice(["vec", "vec", "novec"])))
                 elif ev == "shift":
                     lines.append("dq shift")
                 elif ev == "align":
@@ -289,8 +293,23 @@ def scripts(tier, seed, scale=1):
                     d = 1 if how == "bytes" else r.choice([1, 2, 3, 7, 20, 64, 65, 300]) if how == "rand" else 100000
                     lines += ["st deliver %d" % d, "st poll"] + (["st skip"] if mode != " wait" and r.random() < 0.1 else []) + ["st dispatch"]
                     n -= d
-        lines += ["st flush", "st deliver 1000000", "st poll", "st dispatch", "st sync"]
+        lines += ["st flush", "st deliver 1000000"] + (["st eof"] if r.random() < 0.3 else []) + ["st poll", "st dispatch", "st sync"]
         out.append(("glue%s:%s:%d" % (mode.replace(" ", "-"), codec, k), lines))
+    # messages larger than the sender's socket buffer: the flush writes in parts, the write queue wraps around
+    for k in range((6 if tier == "quick" else 40) * scale):
+        codec = r.choice(CODECS)
+        mode = ("", " input", " wait")[k % 3]
+        lines = ["st new " + codec + mode]
+        for j in range(r.choice([2, 3, 5])):
+            n = r.choice([700, 3000, 9000, 20000])
+            m = [0x85 if mode == " wait" else 7] + [r.choice([0, 0, 1, 7, 255]) for _ in range(n)]
+            for c in c01.chunkings(r, m, r.choice(["one", "rand"])):
+                lines.append("st push " + gen.hexs(c))
+            lines.append("st term")
+            if r.random() < 0.6:
+                lines += ["st flush", "st deliver %d" % r.choice([1000, 5000, 100000]), "st poll", "st dispatch"]
+        lines += ["st flush", "st deliver 1000000", "st poll", "st dispatch", "st sync"]
+        out.append(("glue-big%s:%s:%d" % (mode.replace(" ", "-"), codec, k), lines))
     # full blocks that end exactly at the end of the write queue (the encoder takes a byte back and consumes nothing)
     for codec in CODECS:
         full = 222 if "zpe" in codec else 254
@@ -329,7 +348,7 @@ class _XX:
                 out.append("dq advance")
             elif ln == "dq drain":
                 out.append("dq xdrain")
-            elif w[0] == "dq" and w[1] in ("peek", "shift", "feed"):
+            elif w[0] == "dq" and w[1] in ("peek", "shift", "feed", "get"):
                 continue
             elif w[0] == "st":
                 continue
